@@ -54,7 +54,7 @@ pub struct Voucher {
     pub merges: Vec<(u8, i8)>,
     pub time_lock_min_rel: i16,
     pub time_lock_max_rel: Option<i16>,
-    pub secret: u8, // 0 none, 1 right, 2 wrong, 3 too long
+    pub secret: u8, // 0 none, 1 right, 2 wrong, 3 too long, 4 locked but EMPTY secret submitted, 5 right secret with a trailing byte, 6 secret submitted for an unlocked voucher
     pub min_settle_rel: Option<i16>,
     pub extra: ExtraKind,
 }
@@ -94,7 +94,7 @@ fn voucher_strategy() -> impl Strategy<Value = Voucher> {
             ],
             prop_oneof![20 => Just(-5i16), 2 => Just(0i16), 1 => 1i16..50],
             prop_oneof![12 => Just(None), 3 => (0i16..50).prop_map(Some), 1 => (-20i16..0).prop_map(Some)],
-            prop_oneof![16 => Just(0u8), 6 => Just(1u8), 1 => Just(2u8), 1 => Just(3u8)],
+            prop_oneof![16 => Just(0u8), 6 => Just(1u8), 1 => Just(2u8), 1 => Just(3u8), 1 => Just(4u8), 1 => Just(5u8), 1 => Just(6u8)],
             prop_oneof![6 => Just(None), 3 => (-100i16..3000).prop_map(Some)],
             prop_oneof![16 => Just(ExtraKind::None), 4 => Just(ExtraKind::Succeeds), 1 => Just(ExtraKind::Fails), 1 => Just(ExtraKind::ReentersChannel)],
         ),
@@ -149,7 +149,7 @@ impl Engine for C16 {
     }
     fn budget(&self, tier: Tier) -> (u32, u32) {
         match tier {
-            Tier::Quick => (16, 3000),
+            Tier::Quick => (16, 20000),
             Tier::Thorough => (16, 60000),
         }
     }
@@ -299,12 +299,15 @@ impl Engine for C16 {
                         .collect();
                     let secret: Vec<u8> = match vs.secret {
                         0 => vec![],
-                        1 | 2 => b"open sesame".to_vec(),
+                        1 | 2 | 6 => b"open sesame".to_vec(),
+                        4 => vec![],
+                        5 => b"open sesame\0".to_vec(),
                         _ => vec![9u8; 257],
                     };
                     let pre_image: Vec<u8> = match vs.secret {
-                        0 => vec![],
+                        0 | 6 => vec![],
                         1 | 3 => blake2b_simd::Params::new().hash_length(32).hash(&secret).as_bytes().to_vec(),
+                        4 | 5 => blake2b_simd::Params::new().hash_length(32).hash(b"open sesame").as_bytes().to_vec(),
                         _ => vec![3u8; 32],
                     };
                     let extra = match vs.extra {
@@ -371,7 +374,7 @@ impl Engine for C16 {
                     if amount.is_negative() {
                         set("negative amount");
                     }
-                    if vs.secret == 2 {
+                    if matches!(vs.secret, 2 | 4 | 5) {
                         set("wrong secret");
                     }
                     if matches!(vs.extra, ExtraKind::Fails | ExtraKind::ReentersChannel) {
